@@ -27,6 +27,9 @@ def run(ck):
     for k_ in range(0, 8 if not ck.thorough() else 40):
         if ck.mine(k_ + 2):
             direct_replays(ck, base + 8000 + k_, k_)
+    for k_ in range(0, 12 if not ck.thorough() else 120):
+        if ck.mine(k_ + 3):
+            second_handshake_from_one_address(ck, base + 8500 + k_, k_)
     for r_, n_ch in enumerate((340,) if not ck.thorough() else (340, 400, 90, 341, 512)):
         if ck.mine(r_ + 1):
             mass_delete(ck, base + 9000 + r_, n_ch)
@@ -302,6 +305,64 @@ def mass_delete(ck, seed, n_children):
         ck.count('mass_delete.copies_answered_identically')
 
 
+def second_handshake_from_one_address(ck, seed, k):
+    """Two initiators behind ONE address (a NAT, two processes of one host, a peer that restarted before its first attempt timed out): while the IKE_SA of the first
+    IKE_SA_INIT request is still half-open, a second request with ANOTHER initiator SPI arrives from the same address. It is a request of its own: the answer carries
+    ITS initiator SPI (every message carries the SPIs of the IKE_SA it belongs to), and both handshakes can be completed, in either order."""
+    from vf.ref import party, codec
+    from vf.checks import c02
+    rng = ck.rng('second-handshake', k)
+    sim, a, b = S.make_pair(seed)
+    sim.case = {'family': 'second-handshake-from-one-address', 'k': k}
+    trs = [{'type': 1, 'id': 12, 'keylen': 256}, {'type': 3, 'id': 12, 'keylen': None}, {'type': 2, 'id': 5, 'keylen': None}, {'type': 4, 'id': 19, 'keylen': None}]
+    ps, res = [], []
+    n = 2 + k % 2
+    for j in range(n):
+        p = party.RefParty(S.A4, S.B4, rng)
+        sim.inject(b, S.A4, S.B4, p.init_request(trs, 19))
+        out = [d.data for d in sim.net if d.dst == S.A4]
+        sim.net.clear()
+        ps.append(p)
+        res.append(out[0] if out else None)
+        ck.count('second_handshake.requests')
+        if not out:
+            ck.violation('ike-sa-init-request-with-a-new-spi-not-answered-while-another-handshake-from-that-address-is-half-open', {'request_number': j + 1}, sim.case)
+            return
+        m = codec.decode(out[0], strict_bodies=False)
+        if m['spi_i'] != p.spi_i or m['exch'] != 34 or not m['flags'] & 0x20 or m['mid'] != 0:
+            ck.violation('response-carries-the-spis-of-another-ike-sa-than-the-request-it-answers', {'request_spi_i': p.spi_i, 'response_spi_i': m['spi_i'], 'request_number': j + 1}, sim.case)
+            return
+    order = list(range(n))
+    if k % 3 == 1:
+        order.reverse()
+    child = [{'type': 1, 'id': 12, 'keylen': 256}, {'type': 3, 'id': 12, 'keylen': None}, {'type': 5, 'id': 0, 'keylen': None}]
+    a4, b4 = bytes([192, 0, 2, 1]), bytes([192, 0, 2, 2])
+    done = 0
+    for j in order:
+        p = ps[j]
+        if not p.take_init_response(res[j]):
+            continue
+        tsi = [{'tstype': 7, 'ipproto': 6, 'sport': 4000 + j, 'eport': 4000 + j, 'saddr': a4, 'eaddr': a4}]
+        tsr = [{'tstype': 7, 'ipproto': 6, 'sport': 23, 'eport': 23, 'saddr': b4, 'eaddr': b4}]
+        sim.inject(b, S.A4, S.B4, p.auth_request(c02.ID_A[0], c02.ID_A[1], 2, p.auth_psk(c02.PSK_A, *c02.ID_A), child, 3, tsi, tsr, True))
+        out = [d.data for d in sim.net if d.dst == S.A4]
+        sim.net.clear()
+        ok = False
+        if out:
+            try:
+                h_, inner_, _i = p.open(out[0])
+                ok = any(x['type'] == codec.AUTH for x in inner_)
+            except Exception:
+                ok = False
+        if ok:
+            done += 1
+    ck.nontrivial(('second-handshake', n, tuple(order), done))
+    if done != n:
+        ck.violation('handshakes-from-one-address-with-different-spis-not-all-completed', {'started': n, 'completed': done, 'order': order}, sim.case)
+    else:
+        ck.count('second_handshake.all_completed')
+
+
 def direct_replays(ck, seed, k):
     """The window rule at the IkeSa entry point itself (IkeSa.process_message, what the repository's own tests call): every request the peer has sent so far on
     this IKE_SA - the IKE_SA_INIT request included, which the controller would never route there - is fed again after k further exchanges. Only the copy of the
@@ -353,6 +414,7 @@ def direct_replays(ck, seed, k):
 def verdict(ck):
     c = ck.counters
     ck.floor('schedules of initial exchanges with COOKIE / INVALID_KE_PAYLOAD rounds under duplication in which nothing was lost', c['initial_with_retries.lossless_leaves'], 300)
+    ck.floor('runs with two or three handshakes from one address under different SPIs, all completed', c['second_handshake.all_completed'], 8)
     ck.floor('older requests fed again to the IkeSa entry point and dropped', c['direct_replays.older_request_dropped'], 20)
     ck.floor('requests closing hundreds of CHILD_SAs whose copies were answered identically', c['mass_delete.copies_answered_identically'], 1)
     ck.floor('answered exchanges on one long-lived IKE_SA', c['long_lived.exchanges'], 250)
